@@ -1,7 +1,7 @@
 """C10 Column orderings are permutations; elimination tree exact and postordered  —  R3 (get_perm_c, sp_preorder), R10 must-not-read, R4, extent rule, twins."""
 from ..facts import Program
 from ..run import Check, AnalysisBroken
-from ..rules import ordering, preorder, r10, extent, r9_sibling
+from ..rules import ordering, preorder, r10, extent, r9_sibling, r11_kinds
 from ..rules.effects import PathEffects
 from . import c19
 
@@ -30,6 +30,7 @@ def run(tier):
         chk.clause('C10.D4', 'R3 oracle of get_perm_c (dispatch, index base)')
         chk.clause('C10.D3', 'R3/R7 oracle of sp_preorder')
         chk.clause('C10.D1', 'R10 orderings never read matrix values')
+        r11_kinds.run(chk, 'C10.kinds', prog, cfgname, floor=1900)
         n1 = ordering.get_perm_c_oracle(chk, 'C10.D4', prog, eff, cfgname)
         ordering.colamd_rules(chk, 'C10.D4', prog, cfgname)
         n2 = preorder.run(chk, 'C10.D3', prog, eff, cfgname)
